@@ -4,18 +4,60 @@ PROP = {
     "pkg": "internal/filtering/hashprefix",
     "files": ["filtering/hashprefix/c19_kit_test.go", "filtering/hashprefix/c19_test.go"],
     "level": "exploration",
-    "technique": "tbd",
-    "level_text": "tbd",
-    "level_note": "tbd",
+    "technique": "property-based testing (rapid): independent parent-enumeration/verdict reference model against a "
+                 "recording lookup-service double backed by a generated hash database; stateful histories over one "
+                 "cache with clock advance by state shift, eviction, upstream failures and database changes",
+    "level_text": "Generated host names (1-8 labels; ICANN one/two/three/four-label, wildcard and exception "
+                  "suffixes, private and unlisted suffixes, IDN, numeric, mixed case through "
+                  "filtering.DNSFilter.CheckHost with both services) against generated lookup-service databases "
+                  "(own parents' hashes, excluded suffixes and too-deep parents, distinct hashes sharing a 2-byte "
+                  "prefix found by brute force, non-lower-case hex, ten kinds of malformed TXT strings derived from "
+                  "the own hashes, several TXT layouts). Privacy oracle on every request the double sees (single "
+                  "TXT/IN question = service suffix preceded only by the 4-hex-digit prefixes of the independently "
+                  "enumerated parents; nothing of the name in the wire form; a disabled service sees nothing); "
+                  "verdict oracle in both directions; cache transparency over histories of ~25 steps sharing one "
+                  "cache of 0 (unlimited) to 10 bytes with entries expiring or ageing, failures and database "
+                  "changes. Exploration: no absence claim; the input space that matters (suffix kind x depth x "
+                  "what the database holds for an asked prefix x cache state) is small and covered densely.",
+    "level_note": "Trusts crypto/sha256, encoding/hex, miekg/dns and x/net/publicsuffix (the latter also used by "
+                  "the code under test: a wrong public-suffix table would be invisible). The clock is advanced by "
+                  "rewriting the stored expiry of cache entries (DESIGN 3.4). The real upstream transport "
+                  "(DoH bootstrap in home.go) is not exercised; the double returns exactly the hashes whose prefix "
+                  "was asked, as the real service does.",
     "tests": [
         ("TestVFC19Question", (20000, 150000)),
         ("TestVFC19CheckHost", (5000, 40000)),
-        ("TestVFC19CacheHistory", (20000, 150000)),
+        ("TestVFC19CacheHistory", (20000, 120000)),
     ],
     "plain": ["TestVFC19RegressSmallCache"],
     "shards": (1, 16),
     "workers": (4, 16),
-    "rule": "tbd",
-    "assumptions": [],
+    "rule": "Evaluations = generated cases: (host, database, TXT suffix) for a fresh checker; (mixed-case host, two "
+            "databases, settings) through DNSFilter.CheckHost; histories (2-9 related hosts incl. names whose hash "
+            "collides in the first 2 bytes with a parent of another, database, cache size, ~25 steps of check / "
+            "expire or age one or all prefixes / database change / flip an own hash + expire + recheck / upstream "
+            "failure; one evaluation per history, the number of checks is the class history:checks). Non-trivial = "
+            "(history) a later name shares a 2-byte prefix with an earlier, different name and their verdicts "
+            "differ (class history:nontrivial, via a distinct hash: history:nontrivial_via_collision); (fresh "
+            "question) the database holds a hash under a prefix that is asked; (CheckHost) a mixed-case name with at "
+            "least one parent and an enabled service. Distinct = FNV-64 of the host(s), database description, "
+            "cache size and step trace.",
+    "assumptions": [
+        "x/net/publicsuffix gives the ICANN/private public suffix of a name (used by the reference enumeration)",
+        "the lookup service returns exactly the full hashes of its database whose 2-byte prefix is among the labels "
+        "asked, plus possibly malformed strings (no hashes for prefixes that were not asked)",
+        "an ICANN suffix below a private or unlisted public suffix (\"org\" for foo.dyndns.org) may or may not be "
+        "looked up: the statement excludes ICANN suffixes, the repository's own tests expect it to be hashed; "
+        "verdicts that depend only on such a hash, or only on a non-lower-case hex spelling of an own hash, are "
+        "counted as ambiguous and not asserted",
+        "after a database change, a verdict may follow an answer that is still cached and not expired; once the "
+        "entries are expired the verdict must be the fresh one",
+    ],
+    "require_classes": {"thorough": [
+        "history:nontrivial_via_collision", "history:expiry_decides_verdict", "history:partial_lookup",
+        "history:answered_from_cache", "question:cut_to_four_labels", "question:ambiguous_icann_under_private",
+        "question:host_icann_wildcard", "question:host_private", "db:malformed_txt", "db:collision_name",
+        "checkhost:mixed_case", "checkhost:verdict_parental",
+    ]},
     "claimed": False,
 }
